@@ -209,7 +209,13 @@ fn gen_chaotic(r: &mut Rng, rs: &mut Rng, n_sources: usize, src_lens: &[usize]) 
     };
     while (ops.len() as u64) < depth {
         let k = *r.pick(&kinds);
-        let name = r.pick(&names).to_string();
+        let mut name = r.pick(&names).to_string();
+        if r.chance(1, 60) {
+            // names at the 16-bit limit, with and without a trailing separator (a directory is stored under name + '/')
+            let n = r.pickc(&[65533usize, 65534, 65535, 65536, 65537]);
+            name = "n".repeat(n - 1);
+            name.push(r.pickc(&['n', '/', '\\']));
+        }
         match k {
             0 => {
                 let mut o = small_opts(r);
